@@ -6,7 +6,7 @@
     [guard_eps L] = 1.02e-12 * (L + L^2 + L^3);  [off_eps kappa L] = 1.02 * kappa * (L + L^2 + L^3). *)
 From Coq Require Import Reals.
 From Cheetah Require Import Base.Mat Optics.Maps Optics.Off Optics.OffScalar Optics.OffProofs Optics.OffElems Optics.OffRefute
-  Optics.OffClasses Optics.OffMain Optics.OffCorr Bmadx.Off Bmadx.OffProofs.
+  Optics.OffClasses Optics.OffMain Optics.OffCorr Bmadx.Off Bmadx.OffProofs Optics.UndFixed Optics.UndFixedOff.
 Open Scope R_scope.
 
 Theorem C09_m7close_means : forall eps A B,
@@ -104,6 +104,28 @@ Proof. exact guard_eps_example. Qed.
 Example C09_bendx_defined_somewhere : bendx_defined 1 (1/10) 0 0.
 Proof. exact bendx_defined_example. Qed.
 
+(* ---- after the repair of finding F3 (Undulator R56 = -length / beta**2 * igamma2, [und_map_fixed] of Optics/Maps.v):
+        the Undulator IS the drift, exactly, and the family statement holds for every class WITHOUT the [~ is_undulator]
+        exclusion.  [off_map_fixed] is [off_map] with the Undulator row replaced by the repaired map.  Which row the working
+        tree implements is checked on every run (harness/props/c09.py), selected by the status of F3 in known_findings.json;
+        the theorems above about [und_map] describe the code before the repair. *)
+Theorem C09_undulator_fixed_off : forall L E, und_map_fixed L E = drift_map L E.
+Proof. exact undulator_fixed_off. Qed.
+Theorem C09_off_map_fixed_rows : forall el E,
+  off_map_fixed el E = match el with OffUndulator L => und_map_fixed L E | _ => off_map el E end.
+Proof. exact (fun el E => eq_refl). Qed.
+Theorem C09_off_is_drift_like_fixed : forall el E, 0 <= off_length el <= 100 -> m_e < E ->
+  m7close (guard_eps (off_length el) * (1 + off_mis el)) (off_map_fixed el E) (drift_map (off_length el) E).
+Proof. exact off_is_drift_like_fixed. Qed.
+Theorem C09_off_tracks_like_drift_fixed : forall el E v, 0 <= off_length el <= 100 -> m_e < E ->
+  v7close (guard_eps (off_length el) * (1 + off_mis el) * norm1 v) (rmvec (off_map_fixed el E) v) (rmvec (drift_map (off_length el) E) v).
+Proof. exact off_tracks_like_drift_fixed. Qed.
+Theorem C09_undulator_fixed_tracks_like_drift : forall L E v,
+  rmvec (off_map_fixed (OffUndulator L) E) v = rmvec (drift_map L E) v.
+Proof. exact undulator_fixed_tracks_like_drift. Qed.
+Theorem C09_zero_len_zero_strength_identity_fixed : forall el E, off_length el = 0 -> off_map_fixed el E = rI.
+Proof. exact off_zero_length_identity_fixed. Qed.
+
 Print Assumptions C09_m7close_means.
 Print Assumptions C09_drift_commutes_rot.
 Print Assumptions C09_drift_commutes_shift.
@@ -133,3 +155,9 @@ Print Assumptions C09_dipolex_L0_nan_refuted.
 Print Assumptions C09_quadx_L0_nan_refuted.
 Print Assumptions C09_guard_example.
 Print Assumptions C09_bendx_defined_somewhere.
+Print Assumptions C09_undulator_fixed_off.
+Print Assumptions C09_off_map_fixed_rows.
+Print Assumptions C09_off_is_drift_like_fixed.
+Print Assumptions C09_off_tracks_like_drift_fixed.
+Print Assumptions C09_undulator_fixed_tracks_like_drift.
+Print Assumptions C09_zero_len_zero_strength_identity_fixed.
